@@ -198,6 +198,19 @@ def run_record(rec, kind):
     # twin: explicit loop of solve_t over the spec's range with the same options
     early = exp in ('ValueError', 'KeyError') or (exp == 'SolutionError' and L == 0)
     if not early:
+        # iter_periods(): the PeriodIter has the length of the spec's range, yields (position, label) pairs in
+        # span order and can be iterated again
+        it_m, _ = build(cfg, kind)
+        kwp = {k_: v_ for k_, v_ in kw.items() if k_ in ('start', 'end')}
+        ko, pi = call(lambda: it_m.iter_periods(**kwp))
+        if ko != 'returned':
+            diffs.append('iter_periods-raised')
+        else:
+            want_pairs = [(p - 1, span[p - 1]) for p in rec['range']]
+            first = [(int(a), b) for a, b in pi]
+            second = [(int(a), b) for a, b in pi]
+            if len(pi) != len(want_pairs) or first != want_pairs or second != want_pairs:
+                diffs.append('iter_periods')
         tw, _ = build(cfg, kind)
         kw_t = opts_of(cfg)
         flags = []
